@@ -433,6 +433,37 @@ def rule_drop(ctx):
                     else:
                         r.ok(key, C.loc(m, n), "not reachable from a cost-reporting entry, or "
                              "compensated")
+    # (seed C18_10) the batch simplification removes indices that sit on *every* term — a statement about the
+    # network as given.  Once terms have been merged, "on every remaining term" also holds for an ordinary bond
+    # between the last terms, which the tree keeps and charges: the call must happen once, before any
+    # contracting simplification, never inside the simplification loop
+    sm = cp.methods.get("simplify")
+    if sm is not None:
+        key = ctx.key(sm, "C18-DROP", "batch-once")
+        calls = [n for n in walk_local(sm.node) if isinstance(n, ast.Call) and isinstance(n.func, ast.Attribute)
+                 and n.func.attr == "simplify_batch"]
+        contracting = [n for n in walk_local(sm.node) if isinstance(n, ast.Call) and isinstance(n.func, ast.Attribute)
+                       and n.func.attr in ("simplify_single_terms", "simplify_scalars", "simplify_hadamard", "contract_nodes")]
+        if not calls:
+            r.ok(key, sm.loc, "no batch simplification in simplify()")
+        else:
+            in_loop = [c for c in calls if C.enclosing_loops(sm, C.enclosing_stmt(sm, c))]
+            fl = ctx.flow(sm)
+            late = []
+            for c in calls:
+                cn = fl.cfg.containing(c, sm.module.parents)
+                for k_ in contracting:
+                    kn = fl.cfg.containing(k_, sm.module.parents)
+                    if kn.id != cn.id and cn.id in fl.cfg.reachable_from_succs(kn.id):
+                        late.append((c, k_))
+            if in_loop or late:
+                c = (in_loop or [late[0][0]])[0]
+                r.violation(key, C.loc(sm, c), "simplify_batch() can run after terms were merged (inside the simplification loop / "
+                            "after a contracting simplification): an index on all *remaining* terms — e.g. the bond between the "
+                            "last two — is dropped from the simulator's legs although the tree keeps and charges it, so every "
+                            "later cost the simulator reports is too low")
+            else:
+                r.ok(key, C.loc(sm, calls[0]), "the batch simplification runs once, before any contracting simplification")
     return r
 
 
@@ -718,4 +749,78 @@ def rule_merge(ctx):
     return r
 
 
-RULES = [rule_surv, rule_appear, rule_drop, rule_pre, rule_prelegs, rule_bestpair, rule_report, rule_merge]
+def rule_flops(ctx):
+    """(seed C18_9) 'The scalar-operation count of a step is the product of the dimensions of all indices
+    involved' — each index *once*.  The tree takes the product over the union of the children's legs
+    ([C03-PROV]); its siblings must do the same: the processor multiplies the second operand's dimension only
+    for indices not seen on the first, the hypergraph takes one product over the *set* union of both nodes'
+    edges.  'size of the result times size of the shared bond' counts an index twice when it is shared *and*
+    survives (hyper index on a third tensor, output index on both operands)."""
+    r = RuleResult("C18-FLOPS", "every simulator counts each involved index once per step", 2)
+    hg = ctx.p.cls(C.HYPERGRAPH, "HyperGraph")
+    f = hg.methods.get("contract_pair_cost") if hg is not None else None
+    C.require(f is not None, "HyperGraph.contract_pair_cost not found")
+    k = ctx.key(f, "C18-FLOPS")
+    rets = [n for n in walk_local(f.node) if isinstance(n, ast.Return) and n.value is not None]
+    C.require(len(rets) == 1, "HyperGraph.contract_pair_cost: single return expected")
+    v = rets[0].value
+    la = ctx.r.local_assignments(f)
+    if isinstance(v, ast.Name) and len(la.get(v.id, [])) == 1:
+        v = la[v.id][0]
+    params = [a.arg for a in f.node.args.args][1:3]
+    ok = False
+    why = f"`{C.unparse(v, 70)}`"
+    if isinstance(v, ast.Call) and isinstance(v.func, ast.Attribute) and v.func.attr == "edges_size" and len(v.args) == 1:
+        a = v.args[0]
+        txt = C.unparse(a)
+        is_set = (isinstance(a, ast.Call) and dotted(a.func) in ("set", "frozenset")) or isinstance(a, (ast.SetComp, ast.Set)) or \
+            (isinstance(a, ast.Call) and isinstance(a.func, ast.Attribute) and a.func.attr == "union") or \
+            (isinstance(a, ast.BinOp) and isinstance(a.op, ast.BitOr))
+        both = all(p_ in {x.id for x in ast.walk(a) if isinstance(x, ast.Name)} for p_ in params)
+        ok = is_set and both
+        if not is_set:
+            why += ": the edges of both nodes are not united as a *set* (a shared edge is multiplied twice)"
+        elif not both:
+            why += ": not over both nodes"
+    elif isinstance(v, ast.BinOp) and isinstance(v.op, ast.Mult):
+        why += ": a product of two size figures counts every index that is on both of them twice (a shared index that survives " \
+               "the step: a hyper index also on a third tensor, an output index on both operands)"
+    if ok:
+        r.ok(k, C.loc(f, rets[0]), "one product over the set union of both nodes' edges")
+    else:
+        r.violation(k, C.loc(f, rets[0]), f"the pair cost is {why}; the tree's flops of the same step is the product over the "
+                    f"union of the involved indices, each once")
+    # processor
+    f = ctx.p.func(C.BASIC, "compute_flops")
+    k = ctx.key(f, "C18-FLOPS")
+    loops = [n for n in f.node.body if isinstance(n, ast.For)]
+    params = [a.arg for a in f.node.args.args]
+    probs = []
+    if len(loops) != 2:
+        probs.append(f"expected one loop per operand, found {len(loops)}")
+    else:
+        first, second = loops
+        seen_adds = [c for c in ast.walk(first) if isinstance(c, ast.Call) and isinstance(c.func, ast.Attribute) and c.func.attr == "add"]
+        mul1 = [n for n in first.body if isinstance(n, ast.AugAssign) and isinstance(n.op, ast.Mult)]
+        if not mul1 or C.enclosing_ifs(f, mul1[0]):
+            probs.append("the first operand's dimensions are not all multiplied in")
+        if not seen_adds or C.enclosing_ifs(f, C.enclosing_stmt(f, seen_adds[0])):
+            probs.append("the indices of the first operand are not all recorded as seen")
+        mul2 = [n for n in ast.walk(second) if isinstance(n, ast.AugAssign) and isinstance(n.op, ast.Mult)]
+        g = C.enclosing_ifs(f, mul2[0]) if mul2 else []
+        seen_nm = dotted(seen_adds[0].func.value) if seen_adds else None
+        t = g[0][0].test if g else None
+        guard_ok = g and ((isinstance(t, ast.Compare) and isinstance(t.ops[0], ast.NotIn) and dotted(t.comparators[0]) == seen_nm and g[0][1])
+                          or (isinstance(t, ast.Compare) and isinstance(t.ops[0], ast.In) and dotted(t.comparators[0]) == seen_nm and not g[0][1]))
+        if not mul2 or not guard_ok:
+            probs.append("the second operand's dimension is not multiplied in exactly for the indices not seen on the first")
+        if C.unparse(first.iter) == C.unparse(second.iter):
+            probs.append("both loops run over the same operand")
+    if probs:
+        r.violation(k, f.loc, "; ".join(probs))
+    else:
+        r.ok(k, f.loc, "first operand: every index; second operand: only the indices not seen on the first")
+    return r
+
+
+RULES = [rule_surv, rule_appear, rule_drop, rule_pre, rule_prelegs, rule_bestpair, rule_report, rule_merge, rule_flops]
